@@ -22,7 +22,7 @@ def changes():
             m = re.match(r"c(\d\d)-", n)
             out.append((n, os.path.join(HERE, "mutants", f), EXTRA.get(n) or (["C" + m.group(1)] if m else [])))
     sd = os.path.join(HERE, "seeded")
-    for d in sorted(os.listdir(sd)) if os.path.isdir(sd) else []:
+    for d in sorted(x for x in os.listdir(sd) if os.path.isdir(os.path.join(sd, x))) if os.path.isdir(sd) else []:
         meta = json.load(open(os.path.join(sd, d, "meta.json")))
         out.append(("seeded/" + d, os.path.join(sd, d, "patch.diff"), meta.get("checks_expected") or [meta["property"]]))
     return out
